@@ -37,7 +37,7 @@ func expiryPredicate(p *eng.Prog) *ssa.Function {
 			if a.Field.Is(setecPkg, "cachedSecret", "Declared") && !a.Write {
 				readsDeclared = true
 			}
-			if a.Field.Is(setecPkg, "Store", "expiryAge") {
+			if a.Field.Is(setecPkg, "Store", storeField("expiryAge")) {
 				readsAge = true
 			}
 		}
@@ -50,11 +50,9 @@ func expiryPredicate(p *eng.Prog) *ssa.Function {
 
 func runC19(c *eng.Ctx, tier string) {
 	p := c.P
+	// the expiry predicate: a boolean function of the entry, or (pred == nil)
+	// an expression written out where the snapshot's expired flag is set
 	pred := expiryPredicate(p)
-	if pred == nil {
-		c.Undecided("anchor", nil, 0, "expiry predicate (bool function over cachedSecret.Declared and Store.expiryAge)", "not found")
-		return
-	}
 	// R-C19-7: "dropped from the store and its cache only if ...": the cache
 	// document is the whole active set (C13's rule), nothing is filtered out
 	includeOnly(c, "R-C19-7", func(sc *eng.Ctx) { runC13(sc, "quick") }, "R-C13-2")
@@ -170,6 +168,7 @@ func runC19(c *eng.Ctx, tier string) {
 		c.Notes = append(c.Notes, "no expired marker is ever recorded: nothing expires")
 	}
 	// every store to that flag depends on the predicate's result
+	var flagStores []*ssa.Store
 	if flagField != nil {
 		n := 0
 		for _, f := range p.PkgFuncs(setecPkg) {
@@ -183,6 +182,13 @@ func runC19(c *eng.Ctx, tier string) {
 					return
 				}
 				n++
+				if pred == nil {
+					// judged below (R-C19-2) on the expression itself
+					if k, isK := eng.Origin(st.Val).(*ssa.Const); !isK || k.Value == nil || k.Value.String() != "false" {
+						flagStores = append(flagStores, st)
+					}
+					return
+				}
 				// value is false, or implies the predicate: a conjunction containing the predicate call
 				okk := impliesCall(st.Val, pred)
 				c.Check(okk, "R-C19-1", f, in.Pos(), eng.InstrStr(in), "the expired flag can be true only if the expiry predicate answered true for that entry (flag = [other conditions &&] predicate(entry))", "value "+eng.ValStr(st.Val))
@@ -194,43 +200,84 @@ func runC19(c *eng.Ctx, tier string) {
 	}
 
 	// R-C19-2 the predicate
-	var csP *ssa.Parameter
-	for _, prm := range pred.Params {
-		if eng.IsNamed(prm.Type(), setecPkg, "cachedSecret") {
-			csP = prm
+	type expAnswer struct {
+		fn    *ssa.Function
+		pos   token.Pos
+		site  string
+		facts []eng.Cond
+		val   ssa.Value                 // the comparison answered (nil: look for it among facts)
+		entry func(base ssa.Value) bool // base denotes the entry judged
+	}
+	var answers []expAnswer
+	if pred != nil {
+		var csP *ssa.Parameter
+		for _, prm := range pred.Params {
+			if eng.IsNamed(prm.Type(), setecPkg, "cachedSecret") {
+				csP = prm
+			}
+		}
+		for _, r := range eng.Returns(pred) {
+			rv := eng.RetVals(r)
+			if k, isC := eng.Origin(rv[0]).(*ssa.Const); isC && k.Value.String() == "false" {
+				continue
+			}
+			answers = append(answers, expAnswer{pred, r.Pos(), eng.InstrStr(r), eng.FactsAt(r), rv[0], func(b ssa.Value) bool { return eng.Origin(b) == ssa.Value(csP) }})
+		}
+	} else {
+		for _, st := range flagStores {
+			facts := eng.TruthImplies(st.Val)
+			// the entry: the one whose Declared flag the expression reads
+			var ent ssa.Value
+			for _, cond := range facts {
+				if v, _, isB := cond.Bool(); isB {
+					if fr, base, isF := eng.LoadedField(v); isF && fr.Is(setecPkg, "cachedSecret", "Declared") {
+						ent = eng.Origin(base)
+					}
+				}
+			}
+			answers = append(answers, expAnswer{st.Parent(), st.Pos(), "expired = " + eng.ValStr(st.Val), facts, nil, func(b ssa.Value) bool { return ent != nil && eng.Origin(b) == ent }})
+		}
+		if len(flagStores) == 0 {
+			c.Undecided("R-C19-2", nil, 0, "expiry predicate", "neither a boolean function over cachedSecret.Declared and Store.expiryAge nor an expression stored into the snapshot's expired flag")
 		}
 	}
-	for _, r := range eng.Returns(pred) {
-		rv := eng.RetVals(r)
-		if k, isC := eng.Origin(rv[0]).(*ssa.Const); isC && k.Value.String() == "false" {
-			continue
-		}
-		site := eng.InstrStr(r)
-		facts := eng.FactsAt(r)
+	for _, an := range answers {
+		pred := an.fn
+		site := an.site
+		facts := an.facts
 		notDeclared, agePos := false, false
+		var cmpX, cmpY ssa.Value
+		if b, isB := eng.Origin(an.val).(*ssa.BinOp); an.val != nil && isB && b.Op == token.GTR {
+			cmpX, cmpY = b.X, b.Y
+		}
 		for _, cond := range facts {
 			if v, truth, isB := cond.Bool(); isB && !truth {
-				if fr, base, isF := eng.LoadedField(v); isF && fr.Is(setecPkg, "cachedSecret", "Declared") && eng.Origin(base) == ssa.Value(csP) {
+				if fr, base, isF := eng.LoadedField(v); isF && fr.Is(setecPkg, "cachedSecret", "Declared") && an.entry(base) {
 					notDeclared = true
 				}
 			}
 			if op, x, y, isCmp := cond.Cmp(); isCmp && op == token.GTR {
 				if k, isK := eng.ConstInt(y); isK && k == 0 {
-					if fr, _, isF := eng.LoadedField(x); isF && fr.Is(setecPkg, "Store", "expiryAge") {
+					if fr, _, isF := eng.LoadedField(x); isF && fr.Is(setecPkg, "Store", storeField("expiryAge")) {
 						agePos = true
+					}
+				}
+				if an.val == nil {
+					if fr, _, isF := eng.LoadedField(y); isF && fr.Is(setecPkg, "Store", storeField("expiryAge")) {
+						cmpX, cmpY = x, y
 					}
 				}
 			}
 		}
-		c.Check(notDeclared, "R-C19-2", pred, r.Pos(), site+" [declared]", "a declared secret never expires: a non-false answer is edge-dominated by !entry.Declared", "holding: "+factsStr(facts))
-		c.Check(agePos, "R-C19-2", pred, r.Pos(), site+" [age configured]", "with no expiry age nothing expires: a non-false answer is edge-dominated by expiryAge > 0", "holding: "+factsStr(facts))
+		c.Check(notDeclared, "R-C19-2", pred, an.pos, site+" [declared]", "a declared secret never expires: a non-false answer is edge-dominated by !entry.Declared", "holding: "+factsStr(facts))
+		c.Check(agePos, "R-C19-2", pred, an.pos, site+" [age configured]", "with no expiry age nothing expires: a non-false answer is edge-dominated by expiryAge > 0", "holding: "+factsStr(facts))
 		// the value: Sub(now, lastAccess(entry)) > expiryAge
 		okVal := false
-		detail := "value " + eng.ValStr(rv[0])
-		if b, isB := eng.Origin(rv[0]).(*ssa.BinOp); isB && b.Op == token.GTR {
-			if fr, _, isF := eng.LoadedField(b.Y); isF && fr.Is(setecPkg, "Store", "expiryAge") {
+		detail := "value " + eng.ValStr(an.val)
+		if cmpX != nil {
+			if fr, _, isF := eng.LoadedField(cmpY); isF && fr.Is(setecPkg, "Store", storeField("expiryAge")) {
 				// the age: now.Sub(last access), computed here or by a small helper of the entry
-				age := b.X
+				age := cmpX
 				mapv := func(v ssa.Value) ssa.Value { return eng.Origin(v) }
 				if inner, hc := eng.ThroughHelper(age, func(g *ssa.Function) bool { return eng.IsHelper(pred, g) }); inner != nil {
 					h := eng.Callee(&hc.Call)
@@ -250,7 +297,7 @@ func runC19(c *eng.Ctx, tier string) {
 				if sub, _ := eng.TupleCall(age); sub != nil && eng.CalleeIs(&sub.Call, "time", "Time.Sub") {
 					isClock := func(v ssa.Value) bool {
 						fr2, _, isF2 := eng.LoadedField(v)
-						return isF2 && fr2.Is(setecPkg, "Store", "timeNow")
+						return isF2 && fr2.Is(setecPkg, "Store", storeField("timeNow"))
 					}
 					nowOK := p.DependsOn(sub.Call.Args[0], func(v ssa.Value) bool {
 						if isClock(v) {
@@ -263,7 +310,7 @@ func runC19(c *eng.Ctx, tier string) {
 					})
 					lastOK := false
 					if la, _ := eng.TupleCall(sub.Call.Args[1]); la != nil {
-						if cal := eng.Callee(&la.Call); cal != nil && p.CallGraph() != nil && readsLastAccess(cal) && len(la.Call.Args) == 1 && mapv(la.Call.Args[0]) == ssa.Value(csP) {
+						if cal := eng.Callee(&la.Call); cal != nil && p.CallGraph() != nil && readsLastAccess(cal) && len(la.Call.Args) == 1 && an.entry(mapv(la.Call.Args[0])) {
 							lastOK = true
 						}
 					}
@@ -272,7 +319,7 @@ func runC19(c *eng.Ctx, tier string) {
 				}
 			}
 		}
-		c.Check(okVal, "R-C19-2", pred, r.Pos(), site+" [comparison]", "answers timeNow().Sub(entry's last access) > expiryAge (strictly longer than the age)", detail)
+		c.Check(okVal, "R-C19-2", pred, an.pos, site+" [comparison]", "answers timeNow().Sub(entry's last access) > expiryAge (strictly longer than the age)", detail)
 	}
 	// zero stamp reads as zero time (so a cache without stamps is treated as very old, not as "now")
 	if lat := anchor(p, setecPkg, "(*cachedSecret).lastAccessTime"); lat != nil {
@@ -299,11 +346,28 @@ func runC19(c *eng.Ctx, tier string) {
 	handleBoundToName(c, "R-C19-3")
 	for _, f := range secretClosures(p) {
 		var stamp *ssa.Store
-		for _, a := range eng.FieldAccesses(f) {
-			if a.Field.Is(setecPkg, "cachedSecret", "LastAccess") && a.Kind == "store" {
-				stamp = a.In.(*ssa.Store)
+		// (the stamping may be a small method of the entry called from here)
+		var stampAt ssa.Instruction // where it happens in f itself
+		seenFn := map[*ssa.Function]bool{}
+		eng.InstrsDeep(f, func(g *ssa.Function, _ ssa.Instruction) {
+			if seenFn[g] || (g != f && g.Parent() != nil) {
+				return
 			}
-		}
+			seenFn[g] = true
+			for _, a := range eng.FieldAccesses(g) {
+				if a.Field.Is(setecPkg, "cachedSecret", "LastAccess") && a.Kind == "store" {
+					if g == f {
+						stamp, stampAt = a.In.(*ssa.Store), a.In
+					} else if cs, _ := eng.UniqueCallSite(g).(*ssa.Call); cs != nil && cs.Parent() == f && stamp == nil {
+						// on every path of the helper
+						st := a.In.(*ssa.Store)
+						if miss, _ := eng.Search(g, nil, nil, func(x ssa.Instruction) bool { return x == ssa.Instruction(st) }, eng.IsReturn); miss == nil {
+							stamp, stampAt = st, cs
+						}
+					}
+				}
+			}
+		})
 		if stamp == nil {
 			c.Bad("R-C19-3", f, f.Pos(), "handle body "+eng.FName(f), "each read refreshes the secret's last-access time", "no store to LastAccess")
 			continue
@@ -311,21 +375,24 @@ func runC19(c *eng.Ctx, tier string) {
 		// value: Unix() of the store's clock
 		okVal := false
 		if u, _ := eng.TupleCall(stamp.Val); u != nil && eng.CalleeIs(&u.Call, "time", "Time.Unix") {
-			okVal = p.DependsOn(u.Call.Args[0], func(v ssa.Value) bool {
+			okVal = p.DependsOn(eng.OriginX(u.Call.Args[0]), func(v ssa.Value) bool {
 				fr, _, isF := eng.LoadedField(v)
-				return isF && fr.Is(setecPkg, "Store", "timeNow")
+				return isF && fr.Is(setecPkg, "Store", storeField("timeNow"))
 			})
 		}
 		c.Check(okVal, "R-C19-3", f, stamp.Pos(), eng.InstrStr(stamp), "stamps timeNow().Unix() (the store's clock)", "value "+eng.ValStr(stamp.Val))
 		// same entry as the one returned
 		entry := stamp.Addr.(*ssa.FieldAddr).X
+		if stampAt != ssa.Instruction(stamp) {
+			entry = eng.OriginX(entry)
+		}
 		for _, r := range eng.Returns(f) {
 			rv := eng.RetVals(r)
 			sameEntry := p.DependsOn(rv[0], func(v ssa.Value) bool { return v == entry })
 			c.Check(sameEntry, "R-C19-3", f, r.Pos(), eng.InstrStr(r), "the value returned belongs to the entry that was stamped", "")
 		}
 		// on every path
-		hit, path := eng.Search(f, nil, nil, func(x ssa.Instruction) bool { return x == ssa.Instruction(stamp) }, eng.IsReturn)
+		hit, path := eng.Search(f, nil, nil, func(x ssa.Instruction) bool { return x == stampAt }, eng.IsReturn)
 		c.Check(hit == nil, "R-C19-3", f, stamp.Pos(), "stamp on every path of "+eng.FName(f), "every path through the handle stores the stamp", func() string {
 			if hit == nil {
 				return ""
@@ -443,7 +510,8 @@ func runC19(c *eng.Ctx, tier string) {
 					for _, rl := range eng.RangeLoops(f) {
 						if rl.ElemOf(lk.Index) {
 							// the list is result #0 of a method of the configuration
-							if call, idx := eng.TupleCall(rl.Slice); call != nil && idx == 0 {
+							// (handed down to a helper of the constructor as a parameter)
+							if call, idx := eng.TupleCall(eng.OriginX(rl.Slice)); call != nil && idx == 0 {
 								if cal := eng.Callee(&call.Call); cal != nil && cal.Signature.Recv() != nil && eng.IsNamed(cal.Signature.Recv().Type(), setecPkg, "StoreConfig") {
 									okName = true
 								}
